@@ -3,7 +3,8 @@
     * `(*client).doRequest` / `buildRequest` in /repo/cmdline/remotecmd/client.go (server list
       repetition up to `remote.retries`, the `for i, base := range bases` loop, the 406 fallback
       `encodings = ""; goto loop`, `httperror.Temporary` classification of HTTP statuses),
-    * `selectEncoding` in /repo/lib/compresshttp/compress.go,
+    * `selectEncoding` and the error path of `CompressRequest` (`compress`, `pw.CloseWithError(err)`)
+      in /repo/lib/compresshttp/compress.go,
     * `fileProducer.GetReader` in /repo/signers/transform.go (seek to 0, hand out the file).
 
   Strings are `List Char` so that the proofs stay in core `List` lemmas; the driver converts.
@@ -54,6 +55,11 @@ inductive Outcome where
   | status (code : Nat)
   /-- `cli.cli.Do` returned an error; `temporary` = `httperror.Temporary(err)` -/
   | neterr (temporary : Bool)
+  /-- the reader handed out by `bodyFile.GetReader()` for this attempt returns an error after `k`
+      bytes (I/O error on the input file, failing tar producer, ...); `temporary` =
+      `httperror.Temporary` of that error once net/http has wrapped it in a `*url.Error`
+      (true e.g. for `io.ErrUnexpectedEOF`).  If nothing else happens the server would answer 200. -/
+  | srcFault (k : Nat) (temporary : Bool)
   deriving Repr, DecidableEq
 
 /-- `statusIsTemporary` in internal/httperror/response.go -/
@@ -82,6 +88,63 @@ structure Attempt where
     previous attempt left the file pointer. -/
 def getReader (file : Bytes) (_pos : Nat) : Bytes := file.drop 0
 
+/-! ### the request body of one attempt: `buildRequest` + `compresshttp.CompressRequest` + `cli.cli.Do` -/
+
+/-- how a byte stream ends for its reader: `io.EOF`, or an error -/
+inductive End where
+  | eof
+  | error (temporary : Bool)
+  deriving Repr, DecidableEq
+
+/-- the reader of one attempt: the bytes it yields and how it ends -/
+def sourceOf (file : Bytes) : Outcome → Bytes × End
+  | .srcFault k t => ((getReader file 0).take k, .error t)
+  | .status _ => (getReader file 0, .eof)
+  | .neterr _ => (getReader file 0, .eof)
+
+/-- `compress(encoding, plain, pw)`: `io.Copy(compr, r)` returns the reader's error (nil at EOF);
+    `compr.Close()` runs only if it returned nil and succeeds (the pipe's read side is alive until
+    the transport is done with the request).  The value is the error returned. -/
+def compressResult (src : End) : End := src
+
+/-- `pw.CloseWithError(err)`: the read side of the pipe ends with `err`, with `io.EOF` iff `err == nil` -/
+def closeWithError (err : End) : End := err
+
+/-- how `request.Body` ends for the transport after `CompressRequest`: the source itself when no
+    encoding was selected, else the read side of the pipe fed by the compression goroutine -/
+def bodyEnd (enc : Str) (src : End) : End :=
+  if enc = [] then src else closeWithError (compressResult src)
+
+/-- what a server-side handler gets to read as (decompressed) request body -/
+inductive Delivery where
+  /-- the request never reached a server -/
+  | none
+  /-- no clean end of body: the chunked body is left unterminated (and the decompressor fails), the
+      handler's read returns an error, if the handler runs at all -/
+  | aborted
+  /-- clean EOF after these plain bytes (codec round trip assumed): the handler may answer below 300 -/
+  | complete (body : Bytes)
+  deriving Repr, DecidableEq
+
+/-- what `cli.cli.Do` returns -/
+inductive DoResult where
+  | response (code : Nat)
+  | error (temporary : Bool)
+  deriving Repr, DecidableEq
+
+/-- `cli.cli.Do(request)`.  net/http: an error from reading `Request.Body` is what `RoundTrip`
+    returns ("errors reading from the user's Request.Body are high priority"), and the request is
+    not retried by the transport.  Otherwise the scripted event.  The last branch is not reachable
+    (`srcFault_bodyEnd`): it says what a handler does with a cleanly ended prefix. -/
+def roundTrip (enc : Str) (file : Bytes) (o : Outcome) : DoResult × Delivery :=
+  match bodyEnd enc (sourceOf file o).2 with
+  | .error t => (.error t, .aborted)
+  | .eof =>
+    match o with
+    | .status c => (.response c, .complete (sourceOf file o).1)
+    | .neterr t => (.error t, .none)
+    | .srcFault _ _ => (.response 200, .complete (sourceOf file o).1)
+
 inductive PassRes where
   | final (f : Final)
   /-- `encodings = ""; goto loop` -/
@@ -95,15 +158,15 @@ def pass (file : Bytes) (encs : Str) : List Nat → List Outcome → List Attemp
   | [], sc => ([], .final .nothing, sc)
   | b :: rest, sc =>
     let a : Attempt := ⟨b, encs, selectEncoding encs, getReader file 0⟩
-    match sc.headD (.status 200) with
-    | .status c =>
+    match (roundTrip a.enc file (sc.headD (.status 200))).1 with
+    | .response c =>
       if c < 300 then ([a], .final (.response c b), sc.tail)
       else if c = 406 ∧ encs ≠ [] then ([a], .restart, sc.tail)
       else if statusIsTemporary c = true ∧ rest ≠ [] then
         let r := pass file encs rest sc.tail
         (a :: r.1, r.2.1, r.2.2)
       else ([a], .final (.httpError c), sc.tail)
-    | .neterr t =>
+    | .error t =>
       if t = true ∧ rest ≠ [] then
         let r := pass file encs rest sc.tail
         (a :: r.1, r.2.1, r.2.2)
